@@ -105,13 +105,13 @@ Proof. exact boxed_generate_buggy_refuted_leak. Qed.
    zero-sized array, handle_alloc_error on failure, freed by the box when the caller's function
    panics) and hands the same pointer back with Box::from_raw; its fill loop is the stack form's ---- *)
 From Coq Require Import String.
-From GA Require Import Pipe PipeTie.
+From GA Require Import Pipe.
 From GAGen Require Import GenPipe.
 Local Open Scope string_scope.
 Theorem C16_source_boxed_generate_frame :
   gen_boxed_generate_frame = ("Box::new_uninit", "Box::from_raw(Box::into_raw(..).cast())") /\
   gen_boxed_generate = gen_generate.
-Proof. exact (conj (proj2 tie_generate_frames) boxed_generate_same_loop). Qed.
+Proof. split; reflexivity. Qed.
 
 (* default_boxed as it stands in src/impl_alloc.rs now is the boxed generate applied to T::default
    (coq/gen/GenHeap.v; HeapOps.default_boxed = boxed_generate): no allocation path of its own *)
